@@ -265,6 +265,7 @@ static bool run_one(std::string const& op, Toks& in, Out& impl, Out& ref)
                     i128 r = 1;
                     bool okp = true;
                     for (i128 k = 0; k < Y && okp; ++k) {
+                        if (iabs(X) > 1 && iabs(r) > (static_cast<i128>(1) << 64) / iabs(X)) { okp = false; break; }
                         r *= X;
                         if (!fits<T>(r)) { okp = false; }
                         if (r == 0 || r == 1) { break; }
